@@ -195,6 +195,11 @@ fn down_reason(r: &Reason) -> crate::fsm::SessionDownReason {
     }
 }
 
+thread_local! {
+    /// is the current case running on tokio's paused clock?
+    static PAUSED: std::cell::Cell<bool> = const { std::cell::Cell::new(false) };
+}
+
 struct World {
     global: GlobalHandle,
     tables: TableHandle,
@@ -560,8 +565,17 @@ async fn run_glue(evs: Vec<Ev>, short: bool) -> String {
                 }
             }
             Ev::Wait => {
-                // short mode only: every armed timer (1 s) elapses for real
-                tokio::time::sleep(Duration::from_millis(1250)).await;
+                // short mode only: every armed timer (1 s) elapses in its own task
+                // the timer tasks spawned by the previous steps are polled once (they register their
+                // timeout at the current instant, as they do in production right after the spawn)
+                settle().await;
+                if PAUSED.with(|p| p.get()) {
+                    // (a timer armed by an expiry in this window — LLGR after the restart time — gets its
+                    //  deadline from the advanced clock and is not reached, as in real time)
+                    tokio::time::advance(Duration::from_millis(1250)).await;
+                } else {
+                    tokio::time::sleep(Duration::from_millis(1250)).await;
+                }
                 settle().await;
             }
             Ev::Force => {
@@ -699,8 +713,12 @@ fn run_case(line: &str) -> String {
         rt.shutdown_background();
         return out;
     }
-    let short = t.tagged("glue-short").is_some();
-    if let Some(evs) = t.tagged("glue").or(t.tagged("glue-short")) {
+    // `glue-short`: 1 s timers on tokio's PAUSED clock: `wait` advances it by 1.25 s, the real timer tasks
+    // (spawned by apply_disconnect / spawn_llgr_timers) elapse, are cancelled or are fired exactly as in
+    // production, no wall-clock time passes.  `glue-real`: the same with the real clock (1.25 s per `wait`).
+    let real = t.tagged("glue-real").is_some();
+    let short = t.tagged("glue-short").is_some() || real;
+    if let Some(evs) = t.tagged("glue").or(t.tagged("glue-short")).or(t.tagged("glue-real")) {
         let Some(evs) = evs.iter().map(ev_of).collect::<Option<Vec<_>>>() else {
             return "(bad-case)".into();
         };
@@ -709,8 +727,10 @@ fn run_case(line: &str) -> String {
         }
         let rt = tokio::runtime::Builder::new_current_thread()
             .enable_time()
+            .start_paused(short && !real)
             .build()
             .unwrap();
+        PAUSED.with(|p| p.set(short && !real));
         rt.block_on(run_glue(evs, short))
     } else if let Some(ins) = t.tagged("pure") {
         let Some(ins) = ins.iter().map(gin_of).collect::<Option<Vec<_>>>() else {
